@@ -502,18 +502,19 @@ IncludeCase(c) ==
       files == <<main>> \o hs \o <<g, pre>>
   IN [files |-> files, main |-> 1, incs |-> incs, forced |-> IF useForced THEN <<Len(files)>> ELSE <<>>, defs |-> <<>>, undefs |-> <<>>]
 
-\* all strata; IOEnv.SMALLN bounds the body length of stratum "small", NEXPAND / NCOND / NINCLUDE are the sizes of the seeded strata
-Tagged(cs, name) == [i \in DOMAIN cs |-> [stratum |-> name, case |-> cs[i]]]
-AllCases(u) ==
-  Tagged(SmallCases(0), "small") \o Tagged(PairCases(0), "pair")
-  \o Tagged([c \in 1..atoi(IOEnv.NEXPAND) |-> ExpandCase(c)], "expand")
-  \o Tagged([c \in 1..atoi(IOEnv.NCOND) |-> CondCase(c)], "cond")
-  \o Tagged([c \in 1..atoi(IOEnv.NINCLUDE) |-> IncludeCase(c)], "include")
+\* one stratum per gen step (several run in parallel): IOEnv.STRATUM; the seeded strata take the case numbers IOEnv.FROM..IOEnv.TO;
+\* IOEnv.SMALLN bounds the body length of stratum "small"
+StratumCases(name, from, to) ==
+  CASE name = "small" -> LET s == SmallCases(0) IN [i \in DOMAIN s |-> [c |-> i, case |-> s[i]]]
+    [] name = "pair" -> LET s == PairCases(0) IN [i \in DOMAIN s |-> [c |-> i, case |-> s[i]]]
+    [] name = "expand" -> [i \in 1..(to - from + 1) |-> [c |-> from + i - 1, case |-> ExpandCase(from + i - 1)]]
+    [] name = "cond" -> [i \in 1..(to - from + 1) |-> [c |-> from + i - 1, case |-> CondCase(from + i - 1)]]
+    [] name = "include" -> [i \in 1..(to - from + 1) |-> [c |-> from + i - 1, case |-> IncludeCase(from + i - 1)]]
 
 ASSUME Step = "gen" =>
-  LET cs == AllCases(0)
+  LET cs == StratumCases(IOEnv.STRATUM, atoi(IOEnv.FROM), atoi(IOEnv.TO))
       \* defined: the semantics defines the output of the case (the others are not run at all)
-      out == [i \in DOMAIN cs |-> [id |-> i, stratum |-> cs[i].stratum, case |-> cs[i].case, defined |-> Defined(ExpectedToks(cs[i].case))]]
+      out == [i \in DOMAIN cs |-> [c |-> cs[i].c, stratum |-> IOEnv.STRATUM, case |-> cs[i].case, defined |-> Defined(ExpectedToks(cs[i].case))]]
   IN ndJsonSerialize(IOEnv.OUT, out) /\ PrintT(<<"GEN", Len(out)>>) /\ PrintT(<<"DEFINED", Len(SelectSeq(out, LAMBDA o : o.defined))>>)
 
 (***************************************************************************)
